@@ -102,7 +102,8 @@ Fixpoint prefix_from (is_first : bool) (p q : str) (lines : list str) : list str
   | [] => []
   | l :: r =>
     let prefixed := (if is_first then p else q) ++ l in
-    (if isspace prefixed then [] else prefixed) :: prefix_from false p q r
+    (* yield prefixed if line or not prefixed.isspace() else "" *)
+    (if nonempty l || negb (isspace prefixed) then prefixed else []) :: prefix_from false p q r
   end.
 Definition prefix_lines (lines : list str) (p : str) (q : option str) : list str :=
   let q' := match q with Some (c :: s) => c :: s | _ => p end in   (* following_line_prefix or first_line_prefix *)
@@ -226,7 +227,8 @@ Fixpoint block_lines (o : mopts) (L : option Z) (t : tok) : list str :=
   | BlockCode c => prefix_lines (content_lines c) $"    " None
   | CodeFence a =>
     let ind := spaces (f_indentation a) in
-    (ind ++ f_delimiter a ++ f_info a) :: prefix_lines (content_lines (f_content a)) ind None ++ [ind ++ f_delimiter a]
+    (ind ++ f_delimiter a ++ f_info a) ::
+    (if nonempty (f_content a) then prefix_lines (content_lines (f_content a)) ind None else []) ++ [ind ++ f_delimiter a]
   | List _ _ ch => blocks L ch
   | ListItem a ch =>
     let prepend := if normalize_ws o then len (i_leader a) + 1 else i_prepend a in
